@@ -96,6 +96,8 @@ func (p *C01) Gen(seed uint64, i int, tier string) *scen.Scenario {
 		return scen.Pick(r, levels)
 	}
 	var customs []int
+	pendingRestore := 0
+	defID := 0
 	nOps := r.Range(2, 30)
 	for k := 0; k < nOps; k++ {
 		switch c := r.Intn(100); {
@@ -118,8 +120,21 @@ func (p *C01) Gen(seed uint64, i int, tier string) *scen.Scenario {
 			addWriters(id)
 		case c < 55:
 			sc.Setup = append(sc.Setup, scen.Op{Op: "set", L: scen.Pick(r, loggers), Kind: "level", Lvl: pickLevel()})
-		case c < 60:
+		case c < 56:
 			sc.Setup = append(sc.Setup, scen.Op{Op: "pkg_set_level", Lvl: pickLevel()})
+		case c < 58:
+			// SaveLevelAndSet ... and later its restore function
+			sc.Setup = append(sc.Setup, scen.Op{Op: "pkg_save_level", Lvl: pickLevel()})
+			pendingRestore++
+		case c < 60:
+			if pendingRestore > 0 {
+				sc.Setup = append(sc.Setup, scen.Op{Op: "pkg_restore_level"})
+				pendingRestore--
+			} else if len(loggers) > 1 {
+				// another logger becomes the default: the package-level functions now speak through it
+				defID = scen.Pick(r, loggers)
+				sc.Setup = append(sc.Setup, scen.Op{Op: "set_default", L: defID})
+			}
 		case c < 62:
 			sc.Setup = append(sc.Setup, scen.Op{Op: "pkg_reset_level"})
 		case c < 85 && len(customs) < 5:
@@ -171,7 +186,7 @@ func (p *C01) Gen(seed uint64, i int, tier string) *scen.Scenario {
 				// Off is carried only by the level-parameter entry points
 				custom = true
 			}
-			for _, e := range c01Entries(sev, custom, l == 0) {
+			for _, e := range c01Entries(sev, custom, l == defID) {
 				n++
 				op := scen.Op{Op: "log", L: l, Entry: e, Lvl: sev, Msg: "m" + tok(n), Tok: tok(n)}
 				if e == "Log" {
@@ -189,7 +204,7 @@ func (p *C01) Gen(seed uint64, i int, tier string) *scen.Scenario {
 		sc.Setup = append(sc.Setup, scen.Op{Op: "log", L: l, Entry: "Verbose", Lvl: -1000, Msg: "v" + tok(n), Tok: tok(n)})
 		n++
 		sc.Setup = append(sc.Setup, scen.Op{Op: "log", L: l, Entry: "VerboseContext", Lvl: -1000, Msg: "v" + tok(n), Tok: tok(n)})
-		if l == 0 {
+		if l == defID {
 			n++
 			sc.Setup = append(sc.Setup, scen.Op{Op: "log", L: l, Entry: "pkg.Verbose", Lvl: -1000, Msg: "v" + tok(n), Tok: tok(n)})
 		}
